@@ -14,8 +14,10 @@ Rec == ndJsonDeserialize(IOEnv.TRACE)
 VARIABLES i, bad, odd
 vars == <<i, bad, odd>>
 
+\* kind "big": [kind, src, desc |-> [n, image_bytes], result |-> summary] - see BigAllowed in Arc3ds.tla
 KindOK(ev) ==
-  IF ev.kind = "ok" THEN Conforms(ev.content)
+  IF ev.kind = "big" THEN ev.desc.n \in 0..1048576
+  ELSE IF ev.kind = "ok" THEN Conforms(ev.content)
   ELSE /\ ev.kind \in {"nocount", "noinfo", "noname", "end", "start", "words", "wrapsum"}
        /\ IsErrorLayout(ev.content) /\ ~EmptyRangePastEnd(ev.content)
        /\ Extract(ev.content).err = (CASE ev.kind = "nocount" -> "NoCount" [] ev.kind = "noinfo" -> "NoInfo"
@@ -25,7 +27,9 @@ Init == i = 1 /\ bad = <<>> /\ odd = <<>>
 Next == /\ i <= Len(Rec)
         /\ i' = i + 1
         /\ odd' = IF KindOK(Rec[i]) THEN odd ELSE Append(odd, i)
-        /\ bad' = IF Allowed(Rec[i].content, Rec[i].result) THEN bad
+        /\ bad' = IF Rec[i].kind = "big"
+                  THEN (IF BigAllowed(Rec[i].desc.n, Rec[i].result) THEN bad ELSE Append(bad, [i |-> i, why |-> <<"large-count-summary">>]))
+                  ELSE IF Allowed(Rec[i].content, Rec[i].result) THEN bad
                   ELSE Append(bad, [i |-> i, why |-> <<IF Extract(Rec[i].content).ok THEN "extraction" ELSE "error-not-reported">>])
 Spec == Init /\ [][Next]_vars
 
